@@ -20,6 +20,7 @@ sys.path.insert(0, os.path.dirname(os.path.abspath(__file__)))
 from lib import Check, blit, qlit   # noqa: E402
 from lib import REPO   # noqa: E402
 import gen_coord   # noqa: E402  (tools/: translator tie, proved in coq/geneq/CoordGenEq.v)
+import c08f   # noqa: E402  (bit-exact binary64 model CoordF.v: every finite float input)
 
 from geostructures.coordinates import Coordinate     # noqa: E402  (the implementation)
 
@@ -196,7 +197,7 @@ def gen_values(ck):
 
 def main():
     ck = Check('C08')
-    ck.build_theories(['theories/Props/C08.vo', 'theories/Corr/CoordK.vo'])
+    ck.build_theories(['theories/Props/C08.vo', 'theories/Corr/CoordK.vo', 'theories/Props/C08f.vo', 'theories/Corr/CoordFK.vo'])
     rep = gen_coord.main(REPO, os.path.join(ck.rundir, 'CoordGen.v')); ck.gen('CoordGen.v', rep, 'CoordGenEq.v')   # regenerated from the source, proved equal to the model
     ck.props('Props/C08.v')
     rng = ck.rng
@@ -408,7 +409,9 @@ def main():
                                   'at this input is the one the theorems pin to the canonical form',
                       'how_to_replay': 'bin/check C08 --replay <this file>'})
 
-    ck.finish(rule='all pairs of multiples of 90 in a +-1260 x +-900 window and signed zeros in every input form (int, float, '
+    c08f.run(ck)
+
+    ck.finish(rule=c08f.RULE + '. ' + 'all pairs of multiples of 90 in a +-1260 x +-900 window and signed zeros in every input form (int, float, '
                    'str); all pairs of {+-90k (k<=6), one ulp either side, +-0.0, denormal, 1e-20, 2^-52}; seeded random '
                    'dyadics (0-20 fractional bits) and decimal doubles in +-1e5, tiny longitudes carried over a pole, '
                    'values one ulp from a multiple of 90 against random partners; float()-accepted text forms; Z/M values; '
@@ -420,8 +423,9 @@ def main():
                            'rational is read after conversion)',
                            'on inputs where some float operation of the loops rounds (decided per case with exact '
                            'rationals) only closeness within 4 ulp(180) modulo 360, range and idempotence are demanded',
-                           'non-finite inputs (nan, inf) are outside the property: the loops do not terminate on them',
-                           'unit-vector theorems are over the reals; libm sin/cos/asin/atan2 are observed numerically (1e-9)'])
+                           'non-finite inputs (nan, inf) are outside the property: the loops do not terminate on them, nor on finite doubles from about 2^61 (C08f_diverges_2p61: Coordinate(0.0, 2.0**61) spins; observed on the real code); within the quantified +-1e5 termination is proved (C08f_terminates, at most 559 iterations)',
+                           'unit-vector theorems are over the reals; libm sin/cos/asin/atan2 are observed numerically (1e-9)']
+                          + c08f.ASSUMPTIONS)
 
 
 def replay(path):
@@ -439,6 +443,8 @@ def replay(path):
             print('property clauses violated now:', oracle(float(lon), float(lat), c))
         else:
             print('implementation now:', res)
+    elif m.get('k') == 'mkf':
+        c08f.replay(m)
     elif m.get('k') in ('eq', 'eq-stored'):
         a = [eval(x) for x in m['a']]
         b = [eval(x) for x in m['b']]
